@@ -102,20 +102,18 @@ Definition w_STARTTLS : str := [83;84;65;82;84;84;76;83].
 Definition w_TO : str := [84;79;58].         (* "TO:" *)
 Definition w_PLAIN : str := [80;76;65;73;78]. Definition w_LOGIN : str := [76;79;71;73;78].
 
-(** ParseInt(s, 10, 32) restricted to what the parameter pattern \w+ lets through: digits only
-    (a letter or underscore is a syntax error), value at most 2^31-1. *)
+(** The decimal value of a SIZE parameter as the pattern \w+ lets it through: digits only (a
+    letter or underscore is a syntax error for ParseInt); the magnitude is unbounded here, the
+    32-bit range check is the session's ([Smtp.int32_max]). *)
 Fixpoint digits_val (acc : Z) (l : str) : option Z :=
   match l with
   | [] => Some acc
   | c :: l' => if is_digit c then digits_val (acc * 10 + Z.of_N (c - 48)) l' else None
   end.
-Definition parse_int32 (l : str) : option Z :=
+Definition parse_size (l : str) : option Z :=
   match l with
   | [] => None
-  | _ => match digits_val 0 l with
-         | Some v => if (v <=? 2147483647)%Z then Some v else None
-         | None => None
-         end
+  | _ => digits_val 0 l
   end.
 
 (** What the driver reports about a MAIL argument: did fromRegex match, was a parameter group
@@ -129,7 +127,7 @@ Definition mail_parse_of (f : mailfacts) : mail_parse :=
     let sz := if mf_has_params f
               then match mf_size f with
                    | None => SzNone
-                   | Some v => match parse_int32 v with Some n => SzVal n | None => SzBad end
+                   | Some v => match parse_size v with Some n => SzVal n | None => SzBad end
                    end
               else SzNone in
     MParsed sz (mf_origin f).
